@@ -117,6 +117,15 @@ def predicates(run, case, out, sig_prefix="C08", replay=None):
             run.violation("national summary leaves [base, base + total weight]", input=case, impl=out,
                           expected=[base, base + tot], predicate="natsum_bounded", signature=f"{sig_prefix}:bounded", **extra)
             return False
+        # called contests that are not stop-listed contribute no uncertainty, in either mode: each bound moves away from the prediction
+        # by at most the weights of the other contests
+        free = sum(w for w, c in zip(ws, case["contests"]) if c.get("call", "none") == "none" or c.get("stop"))
+        if pred - lo > free + 1e-9 or hi - pred > free + 1e-9:
+            run.violation("a bound is further from the prediction than the weights of the contests that are not called (or are stop-listed) "
+                          "allow: a called contest contributes uncertainty", input=case, impl=out,
+                          expected={"largest distance allowed": free}, predicate="called_no_uncertainty (both modes)",
+                          signature=f"{sig_prefix}:called-width", **extra)
+            return False
         want = base + sum(w for w, c in zip(ws, case["contests"]) if c["pred"] > 0)
         if abs(pred - round(want, 2)) > 1e-9:
             run.violation("prediction is not base plus the weights of the contests with a positive margin prediction", input=case,
